@@ -208,7 +208,7 @@ class Check:
             # the top of the second device is a mount point: its d_ino (in the parent's stream) is the covered directory's number
             st.setdefault(sub, {})["dino"] = rng.choice(pool_all) if pool_all else 777
             plan["stat"] = st
-        return {"world": world, "roots": roots, "rx": rx, "fmt": fmt, "plan": plan, "order_class": cls, "multidev": multidev, "cwd": cwd,
+        return {"world": world, "roots": roots, "rx": rx, "fmt": fmt, "session": rng.random() < 0.05, "plan": plan, "order_class": cls, "multidev": multidev, "cwd": cwd,
                 "cwd_default": single_default, "select_word": rng.choice(["select ", ""]),
                 # sometimes an attribute column rides along (its per-entry cache must not leak into the walk)
                 "extra_col": rng.choice(["", "", "", "size", "is_dir", "mode", "is_empty"])}
@@ -226,6 +226,10 @@ class Check:
         if case.get("fmt"):
             c = copy.deepcopy(case)
             c["fmt"] = None
+            yield c
+        if case.get("session"):
+            c = copy.deepcopy(case)
+            c["session"] = False
             yield c
         if case.get("rx"):
             t = case["rx"]["template"]
@@ -430,6 +434,19 @@ class Check:
                         if bad:
                             viols.append(Violation(PROP, "C01.dfs", ["C01.dfs", "subtree_not_contiguous", kind],
                                                    {"query": q, "dir": bad, "rows": [x.decode("utf-8", "replace") for x in mine][:40]}))
+            if case.get("session") and not viols and not default and not case["plan"].get("tty"):
+                # both spellings as the two queries of one interactive session: the second walk starts from a clean slate
+                # (no visited set, queue or counter carried over), so the session prints what the two one-shot runs print
+                qa, qb = self.query(case, sb.root, False), self.query(case, sb.root, True)
+                if not any(c in qa + qb for c in "\n\r"):
+                    ra = sb.run([qa], plan=case["plan"], cwd=cwd)
+                    rb = sb.run([qb], plan=case["plan"], cwd=cwd)
+                    rs = sb.run(["-i"], plan=case["plan"], cwd=cwd, stdin_text=qa + "\n" + qb + "\nexit\n")
+                    if ra.status == 0 and rb.status == 0 and not ra.sim and not rb.sim:
+                        if rs.sim or rs.signal is not None or rs.stdout != ra.stdout + rb.stdout:
+                            viols.append(Violation(PROP, "C01.session", ["C01.session", "second_query_of_a_session_differs", kind],
+                                                   {"first": qa, "second": qb, "outcome": rs.summary(), "one_shot_bytes": len(ra.stdout) + len(rb.stdout), "session_bytes": len(rs.stdout)}))
+                        ctx.metric("sessions")
             if False in multisets and True in multisets and multisets[False] != multisets[True] and not viols:
                 viols.append(Violation(PROP, "C01.modes", ["C01.modes", "bfs_dfs_differ", kind], {"query": self.query(case, "$W")}))
         return viols
